@@ -330,15 +330,24 @@ Proof.
   - exists None. apply in_map_iff. exists t. auto.
 Qed.
 
-(* schedule() does not always return: a SCHEDULED task one of whose strategies does not fit on some worker
-   makes `placement_variable.Start = 0` run on the integer 0 (ilp_scheduler.py:248-255) *)
+(* schedule() returns normally: the only raising inputs left are RUNNING tasks without a usable cached
+   placement (the warm-start loop skips constant-0 pairs since the fix of finding ILP-H1) *)
+Lemma C10_returns_normally : forall I,
+  (forall t, In t (i_tasks I) -> is_running t = true -> valid_prev I t = true) -> ilp_raises I = false.
+Proof.
+  intros I H. unfold ilp_raises. destruct (existsb _ (i_tasks I)) eqn:E; [|reflexivity]. exfalso.
+  apply existsb_exists in E. destruct E as (t & Ht & E). unfold hint_raises in E. rewrite bridge_warm_start in E. cbn [negb andb orb] in E.
+  apply andb_true_iff in E. destruct E as [R V]. rewrite (H t Ht R) in V. discriminate.
+Qed.
+(* regression witness of ILP-H1: a SCHEDULED task one of whose strategies does not fit the worker *)
 Definition ex_hint : instance :=
   mkInst 0 [mkWorker 1 [(0, 2)]]
     [mkTask 1 0 TScheduled 0 30 [mkStrat 1 3 [(1, 1)]; mkStrat 2 3 [(0, 1)]] None 3] 0%nat
     [mkGraph 0 [1] []] true false false Goodput [].
-Lemma C10_returns_normally_refuted : exists I, nodup_ids I /\ rt_nonneg I /\ ilp_raises I = true.
+Lemma C10_returns_normally_witness : ilp_raises ex_hint = false /\ exists a, sat (gen_ilp ex_hint) a.
 Proof.
-  exists ex_hint. split; [unfold nodup_ids; cbn; repeat constructor; cbn; tauto|]. split; [apply rt_nonnegb_spec; reflexivity|reflexivity].
+  split; [reflexivity|]. exists (asg_of [(VStart 1, 1); (VPlaced 1 1 1, 1); (VGReward 0, 1); (VTReward 1, 1)]).
+  apply satb_spec. vm_compute. reflexivity.
 Qed.
 
 (* non-vacuity of the capacity theorem: two independent tasks on one 1-CPU worker, placed one after the other *)
